@@ -250,7 +250,9 @@ func genStress(r *rand.Rand, i int, thorough bool) (hx.T, []string) {
 		tags = append(tags, "stress-lopsided")
 	}
 	// mode, then the overflow amounts [local, global, post, timer, session messages, requests]
-	cfg = append(cfg, 0, 0, 0, 0, 0, 0, 0)
+	// ... and the rounds of boundary work (timers already due, work produced from inside handlers)
+	cfg = append(cfg, 0, 0, 0, 0, 0, 0, 0, pick(1, 12))
+	tags = append(tags, "edge")
 	over := func(lo, hi int) int64 { return 999 + pick(lo, hi) } // queues hold 999
 	switch i % 8 {
 	case 1, 5: // every bounded queue of the service overflows while the service is busy
